@@ -3,9 +3,15 @@
    the theorems hold for chains of any length.  On every run the generated path-struct API of the
    compressed packages is enumerated by reflection; each chain's NodePaths (read back from the path
    structs), the path ygot.ResolvePath returned and the data path given by the GoStruct field tags
-   are compared by `mismatches` (correspondence + tag check).  This file restates results of
-   Gen/PathStructsProofs.v. *)
+   are compared by `mismatches` (correspondence + tag check).
+   Builder-style list API (-list_builder_key_threshold): Gen/PathBuilder.v transcribes ygot.ModifyKey
+   and the generated XxxAny() / With<Key>(v) methods; the c29_builder_* theorems below say what
+   ResolvePath gives after ANY sequence of in-place key writes; on every run the stream
+   `pathbuilder` runs programs of With calls and resolutions on live path structs and
+   `pb_model_mismatches` re-computes every resolution from the model state.
+   This file restates results of Gen/PathStructsProofs.v and Gen/PathBuilderProofs.v. *)
 From Ygot Require Import Base.Base Path.PathString Tree.Tree Gen.PathStructs Gen.PathStructsProofs.
+From Ygot Require Import Gen.PathBuilder Gen.PathBuilderProofs.
 
 (* ResolvePath of a chain = the concatenation, root side first, of the relative paths *)
 Theorem c29_resolve : forall kfmt env (c : chain) pes,
@@ -80,3 +86,163 @@ Example c29_example_resolves :
   key_to_string (fun _ => []) [] (VInt I64 (-9000000000)%Z) = Ok [45; 57; 48; 48; 48; 48; 48; 48; 48; 48; 48] /\
   resolve (fun _ => []) [] true [MkNP [[108]] [([107], VEnum [69] 7%Z)]] = Err.
 Proof. repeat split; vm_compute; reflexivity. Qed.
+
+(* ================= builder-style list API: XxxAny() + With<Key>(v) = ygot.ModifyKey in place ================= *)
+
+(* ModifyKey(n, k, v) then relPath: the same element names; on the last element k is bound to the
+   rendering of v, every other key as before *)
+Theorem c29_builder_rel_path : forall kfmt env n init last kvs k v s,
+  np_rel n = init ++ [last] ->
+  mapM (render_key kfmt env) (np_keys n) = Ok kvs -> key_to_string kfmt env v = Ok s ->
+  rel_path kfmt env (modify_key n k v) =
+  Ok (map name_elem init ++ [ {| ename := last; ekeys := al_insert k s kvs |} ]).
+Proof. exact rel_path_modify_key. Qed.
+Print Assumptions c29_builder_rel_path.
+
+Theorem c29_builder_rel_path_find : forall kfmt env n init last kvs k v s pe,
+  np_rel n = init ++ [last] ->
+  mapM (render_key kfmt env) (np_keys n) = Ok kvs -> key_to_string kfmt env v = Ok s ->
+  rel_path kfmt env (modify_key n k v) = Ok pe ->
+  exists e, pe = map name_elem init ++ [e] /\ ename e = last /\
+            al_find k (ekeys e) = Some s /\ forall k0, k0 <> k -> al_find k0 (ekeys e) = al_find k0 kvs.
+Proof. exact rel_path_modify_key_find. Qed.
+Print Assumptions c29_builder_rel_path_find.
+
+(* a value KeyValueAsString rejects makes the node (hence every path through it) fail to resolve *)
+Theorem c29_builder_bad_value : forall kfmt env n kvs k v,
+  mapM (render_key kfmt env) (np_keys n) = Ok kvs -> key_to_string kfmt env v = Err ->
+  rel_path kfmt env (modify_key n k v) = Err.
+Proof. exact rel_path_modify_key_err. Qed.
+Print Assumptions c29_builder_bad_value.
+
+(* frame: a key write on node i of a chain changes the resolved path in the elements of node i
+   only (as c29_builder_rel_path says); the nodes above and below contribute what they did *)
+Theorem c29_builder_frame : forall kfmt env pre n post pes1 pes2 k v pe,
+  Forall2 (fun m p => rel_path kfmt env m = Ok p) pre pes1 ->
+  Forall2 (fun m p => rel_path kfmt env m = Ok p) post pes2 ->
+  rel_path kfmt env (modify_key n k v) = Ok pe ->
+  resolve kfmt env true (modify_at (pre ++ n :: post) (length pre) k v) = Ok (concat pes1 ++ pe ++ concat pes2).
+Proof. exact resolve_modify_at. Qed.
+Print Assumptions c29_builder_frame.
+
+Theorem c29_builder_frame_nodes : forall c i j k v d, j <> i -> nth j (modify_at c i k v) d = nth j c d.
+Proof. exact modify_at_other. Qed.
+Print Assumptions c29_builder_frame_nodes.
+
+Theorem c29_builder_frame_rel : forall c i k v, map np_rel (modify_at c i k v) = map np_rel c.
+Proof. exact modify_at_rel. Qed.
+Print Assumptions c29_builder_frame_rel.
+
+(* the path structs above the written node resolve exactly as before *)
+Theorem c29_builder_frame_above : forall kfmt env rootok c i upto k v, (upto <= i)%nat ->
+  resolve kfmt env rootok (firstn upto (modify_at c i k v)) = resolve kfmt env rootok (firstn upto c).
+Proof. exact resolve_above_unchanged. Qed.
+Print Assumptions c29_builder_frame_above.
+
+(* the element names (the data-tree path) never change, whatever is written where *)
+Theorem c29_builder_names : forall kfmt env rootok c i k v p q,
+  resolve kfmt env rootok c = Ok p -> resolve kfmt env rootok (modify_at c i k v) = Ok q -> map ename q = map ename p.
+Proof. exact resolve_names_modify_at. Qed.
+Print Assumptions c29_builder_names.
+
+(* sequences of With calls (any length, any order, repetitions): closed form of the key map.
+   Every key of the list is present; its value is the one most recently written, "*" if none. *)
+Theorem c29_builder_keys : forall rel keys ws,
+  keys_sorted keys -> (forall w, In w ws -> In (fst w) keys) ->
+  apply_withs ws (any_node rel keys) = MkNP rel (map (fun k => (k, final_value k ws)) keys).
+Proof. exact builder_node. Qed.
+Print Assumptions c29_builder_keys.
+
+Theorem c29_builder_last_write_wins : forall k v ws, final_value k (ws ++ [(k, v)]) = v.
+Proof. exact final_value_set. Qed.
+Print Assumptions c29_builder_last_write_wins.
+
+Theorem c29_builder_other_keys_kept : forall k k' v ws, k <> k' -> final_value k (ws ++ [(k', v)]) = final_value k ws.
+Proof. exact final_value_other. Qed.
+Print Assumptions c29_builder_other_keys_kept.
+
+Theorem c29_builder_wildcard_until_set : forall k ws, (forall w, In w ws -> fst w <> k) -> final_value k ws = wildcard.
+Proof. exact final_value_unset. Qed.
+Print Assumptions c29_builder_wildcard_until_set.
+
+(* re-keying: of two consecutive writes to one key only the second counts (any node, any state) *)
+Theorem c29_builder_rekey : forall ws k v1 v2 n,
+  apply_withs (ws ++ [(k, v1); (k, v2)]) n = apply_withs (ws ++ [(k, v2)]) n.
+Proof. exact rekey_twice. Qed.
+Print Assumptions c29_builder_rekey.
+
+Theorem c29_builder_order_irrelevant : forall rel keys ws1 ws2,
+  keys_sorted keys -> (forall w, In w ws1 -> In (fst w) keys) -> (forall w, In w ws2 -> In (fst w) keys) ->
+  (forall k, In k keys -> final_value k ws1 = final_value k ws2) ->
+  apply_withs ws1 (any_node rel keys) = apply_withs ws2 (any_node rel keys).
+Proof. exact builder_order_irrelevant. Qed.
+Print Assumptions c29_builder_order_irrelevant.
+
+(* end to end: a chain through a builder node after any sequence of With calls on it resolves to
+   the data-tree path whose list element carries, for every key of the list, the rendering of the
+   value most recently passed ("*" for a key never set) *)
+Theorem c29_builder_resolve : forall kfmt env pre post pes1 pes2 init last keys ws kvs,
+  keys_sorted keys -> keys <> [] -> (forall w, In w ws -> In (fst w) keys) ->
+  Forall2 (fun m p => rel_path kfmt env m = Ok p) pre pes1 ->
+  Forall2 (fun m p => rel_path kfmt env m = Ok p) post pes2 ->
+  mapM (render_key kfmt env) (map (fun k => (k, final_value k ws)) keys) = Ok kvs ->
+  resolve kfmt env true (pre ++ apply_withs ws (any_node (init ++ [last]) keys) :: post) =
+  Ok (concat pes1 ++ (map name_elem init ++ [ {| ename := last; ekeys := kvs |} ]) ++ concat pes2).
+Proof. exact builder_resolve. Qed.
+Print Assumptions c29_builder_resolve.
+
+Theorem c29_builder_rendered_keys : forall kfmt env keys ws kvs,
+  mapM (render_key kfmt env) (map (fun k => (k, final_value k ws)) keys) = Ok kvs ->
+  Forall2 (fun k kv => fst kv = k /\ key_to_string kfmt env (final_value k ws) = Ok (snd kv)) keys kvs.
+Proof. exact builder_rendered_keys. Qed.
+Print Assumptions c29_builder_rendered_keys.
+
+Theorem c29_builder_all_wildcards : forall kfmt env keys,
+  mapM (render_key kfmt env) (map (fun k => (k, final_value k [])) keys) = Ok (map (fun k => (k, s_star)) keys).
+Proof. exact builder_all_wildcards. Qed.
+Print Assumptions c29_builder_all_wildcards.
+
+(* ModifyKey on a nil key map (the root's NodePath, NewNodePath(rel, nil, p)) panics *)
+Theorem c29_builder_nil_map : forall n k v, modify_key_go true n k v = Panic.
+Proof. exact modify_key_go_nil. Qed.
+Print Assumptions c29_builder_nil_map.
+
+(* ---------- non-vacuity: /acl/acl-sets/acl-set[name=*][type=*]/entries/entry[seq=7]
+   resolved, WithType(ACCEPT...) = "T", WithName("a"), WithName("b"), resolved again ---------- *)
+Definition c29b_s_name : str := [110; 97; 109; 101].
+Definition c29b_s_type : str := [116; 121; 112; 101].
+Definition c29b_any : nodepath := any_node [[97; 99; 108; 45; 115; 101; 116; 115]; [97; 99; 108; 45; 115; 101; 116]] [c29b_s_name; c29b_s_type].
+Definition c29b_chain : chain :=
+  [ MkNP [[97; 99; 108]] []; c29b_any; MkNP [[101; 110; 116; 114; 105; 101; 115]; [101; 110; 116; 114; 121]] [([115; 101; 113], VInt U32 7%Z)] ].
+Definition c29b_withs : list (str * scalar) :=
+  [ (c29b_s_type, VStr [84]); (c29b_s_name, VStr [97]); (c29b_s_name, VStr [98]) ].
+Example c29_builder_example :
+  (* before any With call: both keys "*" *)
+  resolve (fun _ => []) [] true c29b_chain =
+  Ok [ name_elem [97; 99; 108]; name_elem [97; 99; 108; 45; 115; 101; 116; 115];
+       {| ename := [97; 99; 108; 45; 115; 101; 116]; ekeys := [(c29b_s_name, [42]); (c29b_s_type, [42])] |};
+       name_elem [101; 110; 116; 114; 105; 101; 115]; {| ename := [101; 110; 116; 114; 121]; ekeys := [([115; 101; 113], [55])] |} ] /\
+  (* after the three With calls on the node in the middle of the chain: name = "b" (last write), type = "T" *)
+  resolve (fun _ => []) [] true
+    (fold_left (fun c w => modify_at c 1 (fst w) (snd w)) c29b_withs c29b_chain) =
+  Ok [ name_elem [97; 99; 108]; name_elem [97; 99; 108; 45; 115; 101; 116; 115];
+       {| ename := [97; 99; 108; 45; 115; 101; 116]; ekeys := [(c29b_s_name, [98]); (c29b_s_type, [84])] |};
+       name_elem [101; 110; 116; 114; 105; 101; 115]; {| ename := [101; 110; 116; 114; 121]; ekeys := [([115; 101; 113], [55])] |} ] /\
+  apply_withs c29b_withs c29b_any =
+    MkNP [[97; 99; 108; 45; 115; 101; 116; 115]; [97; 99; 108; 45; 115; 101; 116]] [(c29b_s_name, VStr [98]); (c29b_s_type, VStr [84])] /\
+  keys_sorted [c29b_s_name; c29b_s_type] /\
+  (* the trace checker accepts the faithful trace and rejects a stale resolution (the path resolved
+     before WithName is returned again after it) *)
+  run_model (fun _ => []) [] true [false] [c29b_any]
+    [ PResolve 1 [c29b_any] (Ok [name_elem [97; 99; 108; 45; 115; 101; 116; 115]; {| ename := [97; 99; 108; 45; 115; 101; 116]; ekeys := [(c29b_s_name, [42]); (c29b_s_type, [42])] |}]) [];
+      PSet 0 c29b_s_name (VStr [97]) false;
+      PResolve 1 [modify_key c29b_any c29b_s_name (VStr [97])]
+        (Ok [name_elem [97; 99; 108; 45; 115; 101; 116; 115]; {| ename := [97; 99; 108; 45; 115; 101; 116]; ekeys := [(c29b_s_name, [97]); (c29b_s_type, [42])] |}]) [] ] = true /\
+  run_model (fun _ => []) [] true [false] [c29b_any]
+    [ PSet 0 c29b_s_name (VStr [97]) false;
+      PResolve 1 [modify_key c29b_any c29b_s_name (VStr [97])]
+        (Ok [name_elem [97; 99; 108; 45; 115; 101; 116; 115]; {| ename := [97; 99; 108; 45; 115; 101; 116]; ekeys := [(c29b_s_name, [42]); (c29b_s_type, [42])] |}]) [] ] = false.
+Proof.
+  repeat split; try (vm_compute; reflexivity).
+  all: repeat constructor.
+Qed.
